@@ -44,4 +44,4 @@ if __name__=='__main__':
             inc=[c for c,r in res.items() if isinstance(r,dict) and r.get('incomplete')]
             print(sid, 'DETECTED by '+','.join(det) if det else 'missed', ('INCOMPLETE '+','.join(inc)) if inc else '', flush=True)
             for c in det[:2]: print('     ',c, res[c]['first'][:220], flush=True)
-    json.dump(out, open(f'{VERIF}/.work/matrix.json','w'), indent=1)
+    json.dump(out, open(os.environ.get('MATRIX_OUT', f'{VERIF}/.work/matrix.json'),'w'), indent=1)
